@@ -49,7 +49,9 @@ def workload(tier: str, seed: int) -> tuple[list[dict], list[dict], list[dict], 
             for ch in sp[:-1]:
                 acc = acc + ch
                 incomplete.append(puml.evidence_model([jobs[i] for i in acc]) != full)
-            cases.append({"group": g, "name": b["name"], "kind": b["kind"], "src": b["src"],
+            # job names with a space: file names are derived from them (<name>_model.json)
+            nm = b["name"] if (g + si) % 5 else "wf " + b["name"]
+            cases.append({"group": g, "name": nm, "kind": b["kind"], "src": b["src"],
                           "tags": b["tags"], "jobs": b["jobs"], "split": sp,
                           "prefix_incomplete": incomplete,
                           "uuid_seed": f"{seed}-{g}-{si}", "rng_seed": f"{seed}-{g}-{si}",
